@@ -1,1 +1,537 @@
-(* stub: to be written by group Rates *)
+(* Lemmas about the exchange-rate look-up model (C12): the calendar, the
+   year map built by fill_in_unknown_day_rates, and the equivalence of the
+   stateless look-up with the declarative rule of Spec/RateRule.v. *)
+From Coq Require Import List NArith ZArith QArith Qcanon Bool Lia.
+From ACB Require Import Base.Outcome Base.QcExtra Base.Fit Base.Arith
+     Model.Rates Model.RatesCache Spec.RateRule.
+Import ListNotations.
+Local Open Scope Z_scope.
+
+(* ------------------------------------------------------------------ calendar *)
+Lemma jan1_step y : 365 <= jan1 (y + 1) - jan1 y <= 366.
+Proof.
+  unfold jan1, days_before_year. cbv zeta.
+  replace (y + 1 - 1) with (y - 1 + 1) by lia.
+  set (p := y - 1).
+  Z.div_mod_to_equations; lia.
+Qed.
+
+Lemma jan1_ge y1 y2 : y1 <= y2 -> 365 * (y2 - y1) <= jan1 y2 - jan1 y1.
+Proof.
+  intros H. unfold jan1, days_before_year. cbv zeta.
+  Z.div_mod_to_equations; lia.
+Qed.
+
+Lemma jan1_lt y1 y2 : y1 < y2 -> jan1 y1 < jan1 y2.
+Proof. intros H. pose proof (jan1_ge y1 y2 ltac:(lia)). lia. Qed.
+
+Lemma jan1_le y1 y2 : y1 <= y2 -> jan1 y1 <= jan1 y2.
+Proof. intros H. pose proof (jan1_ge y1 y2 H). lia. Qed.
+
+Lemma year_len_bounds y : 365 <= year_len y <= 366.
+Proof. unfold year_len. apply jan1_step. Qed.
+
+Lemma year_est_lo d : jan1 (year_est d) <= d.
+Proof.
+  unfold jan1, days_before_year, year_est. cbv zeta.
+  set (z := d + 719162).
+  replace (400 * (z / 146097) + z mod 146097 / 366 + 1 - 1)
+    with (400 * (z / 146097) + z mod 146097 / 366) by lia.
+  assert (Hz : z = 146097 * (z / 146097) + z mod 146097) by (apply Z.div_mod; lia).
+  assert (Hr : 0 <= z mod 146097 < 146097) by (apply Z.mod_pos_bound; lia).
+  set (n := z / 146097) in *. set (r := z mod 146097) in *.
+  assert (Hq : 0 <= r / 366 <= 399) by (Z.div_mod_to_equations; lia).
+  assert (Hq2 : 366 * (r / 366) <= r) by (apply Z.mul_div_le; lia).
+  set (q := r / 366) in *.
+  replace d with (z - 719162) by (unfold z; lia).
+  Z.div_mod_to_equations; lia.
+Qed.
+
+Lemma year_est_hi d : d < jan1 (year_est d + 3).
+Proof.
+  unfold jan1, days_before_year, year_est. cbv zeta.
+  set (z := d + 719162).
+  replace (400 * (z / 146097) + z mod 146097 / 366 + 1 + 3 - 1)
+    with (400 * (z / 146097) + (z mod 146097 / 366 + 3)) by lia.
+  assert (Hz : z = 146097 * (z / 146097) + z mod 146097) by (apply Z.div_mod; lia).
+  assert (Hr : 0 <= z mod 146097 < 146097) by (apply Z.mod_pos_bound; lia).
+  set (n := z / 146097) in *. set (r := z mod 146097) in *.
+  assert (Hq : 0 <= r / 366 <= 399) by (Z.div_mod_to_equations; lia).
+  assert (Hq2 : r < 366 * (r / 366 + 1)).
+  { pose proof (Z.mod_pos_bound r 366 ltac:(lia)). pose proof (Z.div_mod r 366 ltac:(lia)). lia. }
+  set (q := r / 366) in *.
+  replace d with (z - 719162) by (unfold z; lia).
+  Z.div_mod_to_equations; lia.
+Qed.
+
+(* Date::year() is the year whose 1 January .. 31 December contain the day *)
+Lemma year_of_spec d : jan1 (year_of d) <= d < jan1 (year_of d + 1).
+Proof.
+  unfold year_of. cbv zeta.
+  pose proof (year_est_lo d) as Hlo. pose proof (year_est_hi d) as Hhi.
+  set (y := year_est d) in *.
+  pose proof (jan1_le y (y + 1) ltac:(lia)) as H1.
+  pose proof (jan1_le (y + 1) (y + 2) ltac:(lia)) as H2.
+  destruct (d <? jan1 (y + 1)) eqn:E1.
+  - apply Z.ltb_lt in E1. lia.
+  - apply Z.ltb_ge in E1.
+    destruct (d <? jan1 (y + 2)) eqn:E2.
+    + apply Z.ltb_lt in E2. replace (y + 1 + 1) with (y + 2) by lia. lia.
+    + apply Z.ltb_ge in E2. replace (y + 2 + 1) with (y + 3) by lia. lia.
+Qed.
+
+Lemma year_of_unique d y : jan1 y <= d < jan1 (y + 1) -> year_of d = y.
+Proof.
+  intros H. pose proof (year_of_spec d) as S.
+  destruct (Z.lt_trichotomy (year_of d) y) as [L | [E | G]]; [ | exact E | ].
+  - pose proof (jan1_le (year_of d + 1) y ltac:(lia)). lia.
+  - pose proof (jan1_le (y + 1) (year_of d) ltac:(lia)). lia.
+Qed.
+
+Lemma year_of_jan1 y : year_of (jan1 y) = y.
+Proof. apply year_of_unique. pose proof (jan1_step y). lia. Qed.
+
+(* ------------------------------------------------------------------ mget *)
+Lemma mget_app x l1 l2 :
+  mget x (l1 ++ l2) = match mget x l2 with Some r => Some r | None => mget x l1 end.
+Proof.
+  induction l1 as [| [d r] t IH]; cbn [app mget].
+  - destruct (mget x l2); reflexivity.
+  - rewrite IH. destruct (mget x l2); reflexivity.
+Qed.
+
+Lemma mget_zeros x c n :
+  mget x (zeros c n) = if (c <=? x) && (x <? c + Z.of_nat n) then Some 0%Qc else None.
+Proof.
+  revert c. induction n as [| k IH]; intros c; cbn [zeros mget].
+  - destruct (c <=? x) eqn:E1; destruct (x <? c + Z.of_nat 0) eqn:E2; cbn; try reflexivity.
+    apply Z.leb_le in E1. apply Z.ltb_lt in E2. lia.
+  - rewrite IH.
+    destruct (c + 1 <=? x) eqn:E1; destruct (x <? c + 1 + Z.of_nat k) eqn:E2; cbn [andb].
+    + apply Z.leb_le in E1. apply Z.ltb_lt in E2.
+      replace (c <=? x) with true by (symmetry; apply Z.leb_le; lia).
+      replace (x <? c + Z.of_nat (S k)) with true by (symmetry; apply Z.ltb_lt; lia). reflexivity.
+    + apply Z.leb_le in E1. apply Z.ltb_ge in E2.
+      replace (c =? x) with false by (symmetry; apply Z.eqb_neq; lia).
+      replace (x <? c + Z.of_nat (S k)) with false by (symmetry; apply Z.ltb_ge; lia).
+      rewrite andb_false_r. reflexivity.
+    + apply Z.leb_gt in E1. apply Z.ltb_lt in E2.
+      destruct (c =? x) eqn:E3.
+      * apply Z.eqb_eq in E3.
+        replace (c <=? x) with true by (symmetry; apply Z.leb_le; lia).
+        replace (x <? c + Z.of_nat (S k)) with true by (symmetry; apply Z.ltb_lt; lia). reflexivity.
+      * apply Z.eqb_neq in E3.
+        replace (c <=? x) with false by (symmetry; apply Z.leb_gt; lia). reflexivity.
+    + apply Z.leb_gt in E1. apply Z.ltb_ge in E2.
+      destruct (c =? x) eqn:E3.
+      * apply Z.eqb_eq in E3. lia.
+      * apply Z.eqb_neq in E3.
+        replace (c <=? x) with false by (symmetry; apply Z.leb_gt; lia). reflexivity.
+Qed.
+
+(* ------------------------------------------------ ascending observation lists *)
+(* dates strictly ascending, all >= lo *)
+Fixpoint asc (lo : Z) (rs : list drate) : Prop :=
+  match rs with
+  | [] => True
+  | (d, _) :: t => lo <= d /\ asc (d + 1) t
+  end.
+(* one past the last date (or the given cursor) *)
+Fixpoint end_of (rs : list drate) (cur : Z) : Z :=
+  match rs with
+  | [] => cur
+  | (d, _) :: t => end_of t (d + 1)
+  end.
+(* rate of a day, zero when there is none *)
+Definition valz (rs : list drate) (x : Z) : Qc :=
+  match mget x rs with Some r => r | None => 0%Qc end.
+
+Lemma asc_weaken lo lo' rs : lo' <= lo -> asc lo rs -> asc lo' rs.
+Proof. destruct rs as [| [d r] t]; cbn; intros; [exact I | ]. intuition lia. Qed.
+
+Lemma asc_end_of lo rs : asc lo rs -> lo <= end_of rs lo.
+Proof.
+  revert lo. induction rs as [| [d r] t IH]; cbn [asc end_of]; intros lo H; [lia | ].
+  destruct H as [H1 H2]. specialize (IH _ H2). lia.
+Qed.
+
+Lemma end_of_cur_irrel d r t c1 c2 : end_of ((d, r) :: t) c1 = end_of ((d, r) :: t) c2.
+Proof. reflexivity. Qed.
+
+Lemma asc_mget_range lo rs x v : asc lo rs -> mget x rs = Some v -> lo <= x < end_of rs lo.
+Proof.
+  revert lo v. induction rs as [| [d r] t IH]; cbn [asc end_of mget]; intros lo v H E; [discriminate | ].
+  destruct H as [H1 H2].
+  destruct (mget x t) as [v' |] eqn:Et.
+  - specialize (IH _ v' H2 eq_refl). lia.
+  - destruct (d =? x) eqn:Ed; [ | discriminate ].
+    apply Z.eqb_eq in Ed. subst x. pose proof (asc_end_of _ _ H2). lia.
+Qed.
+
+Lemma asc_mget_none lo rs x : asc lo rs -> x < lo -> mget x rs = None.
+Proof.
+  intros H L. destruct (mget x rs) as [v |] eqn:E; [ | reflexivity ].
+  pose proof (asc_mget_range _ _ _ _ H E). lia.
+Qed.
+
+(* ------------------------------------------------------------------ fill *)
+Lemma fill_loop_spec rs : forall cur,
+  asc cur rs ->
+  let '(l, c) := fill_loop rs cur in
+  c = end_of rs cur /\
+  forall x, mget x l = if (cur <=? x) && (x <? c) then Some (valz rs x) else None.
+Proof.
+  induction rs as [| [d r] t IH]; intros cur H; cbn [fill_loop].
+  - split; [reflexivity | ]. intros x. cbn [mget].
+    destruct (cur <=? x) eqn:E1; destruct (x <? cur) eqn:E2; cbn; try reflexivity.
+    apply Z.leb_le in E1. apply Z.ltb_lt in E2. lia.
+  - cbn [asc] in H. destruct H as [H1 H2].
+    replace (cur + Z.of_nat (Z.to_nat (d - cur)) + 1) with (d + 1) by lia.
+    specialize (IH (d + 1) H2).
+    destruct (fill_loop t (d + 1)) as [l c]. destruct IH as [Hc Hl].
+    cbn [end_of]. split; [exact Hc | ].
+    pose proof (asc_end_of _ _ H2) as Hend. rewrite <- Hc in Hend.
+    intros x. rewrite mget_app. cbn [mget]. rewrite Hl, mget_zeros.
+    replace (cur + Z.of_nat (Z.to_nat (d - cur))) with d by lia.
+    unfold valz. cbn [mget].
+    destruct (d + 1 <=? x) eqn:E1.
+    + apply Z.leb_le in E1.
+      destruct (x <? c) eqn:E2; cbn [andb].
+      * replace (cur <=? x) with true by (symmetry; apply Z.leb_le; lia). cbn [andb].
+        unfold valz. destruct (mget x t) as [v |]; [reflexivity | ].
+        replace (d =? x) with false by (symmetry; apply Z.eqb_neq; lia). reflexivity.
+      * replace (d =? x) with false by (symmetry; apply Z.eqb_neq; lia).
+        replace (x <? d) with false by (symmetry; apply Z.ltb_ge; lia).
+        rewrite !andb_false_r. reflexivity.
+    + apply Z.leb_gt in E1. cbn [andb].
+      rewrite (asc_mget_none _ _ x H2) by lia.
+      destruct (d =? x) eqn:E3.
+      * apply Z.eqb_eq in E3. subst x.
+        replace (cur <=? d) with true by (symmetry; apply Z.leb_le; lia).
+        replace (d <? c) with true by (symmetry; apply Z.ltb_lt; lia). reflexivity.
+      * apply Z.eqb_neq in E3.
+        destruct (cur <=? x) eqn:E4; cbn [andb].
+        -- apply Z.leb_le in E4.
+           replace (x <? d) with true by (symmetry; apply Z.ltb_lt; lia).
+           replace (x <? c) with true by (symmetry; apply Z.ltb_lt; lia). reflexivity.
+        -- reflexivity.
+Qed.
+
+Lemma fill_tail_spec today y : forall fuel cur,
+  jan1 y <= cur ->
+  Z.of_nat fuel = Z.max 0 (today - cur) ->
+  fill_tail fuel cur today y = zeros cur (Z.to_nat (Z.min today (jan1 (y + 1)) - cur)).
+Proof.
+  induction fuel as [| k IH]; intros cur Hlo Hf; cbn [fill_tail].
+  - replace (Z.to_nat (Z.min today (jan1 (y + 1)) - cur)) with O by lia. reflexivity.
+  - replace (cur <? today) with true by (symmetry; apply Z.ltb_lt; lia). cbn [andb].
+    destruct (Z_lt_le_dec cur (jan1 (y + 1))) as [L | G].
+    + rewrite (year_of_unique cur y) by lia. rewrite Z.eqb_refl.
+      rewrite IH by lia.
+      replace (Z.to_nat (Z.min today (jan1 (y + 1)) - cur))
+        with (S (Z.to_nat (Z.min today (jan1 (y + 1)) - (cur + 1)))) by lia.
+      reflexivity.
+    + replace (year_of cur =? y) with false.
+      * replace (Z.to_nat (Z.min today (jan1 (y + 1)) - cur)) with O by lia. reflexivity.
+      * symmetry. apply Z.eqb_neq. intros E. pose proof (year_of_spec cur) as S. rewrite E in S. lia.
+Qed.
+
+(* the days a year map covers: from 1 January up to (excluding) [cover] *)
+Definition cover (rs : list drate) (y today : Z) : Z :=
+  Z.max (end_of rs (jan1 y)) (Z.min today (jan1 (y + 1))).
+
+(* the year map: every day from 1 January up to the later of the last
+   observation and yesterday (within the year) has an entry -- the rate of
+   the day, or zero *)
+Lemma fill_spec rs y today x :
+  asc (jan1 y) rs ->
+  mget x (fill rs y today) =
+    if (jan1 y <=? x) && (x <? cover rs y today) then Some (valz rs x) else None.
+Proof.
+  intros H. unfold fill, cover.
+  pose proof (fill_loop_spec rs (jan1 y) H) as S.
+  destruct (fill_loop rs (jan1 y)) as [l c]. destruct S as [Hc Hl].
+  pose proof (asc_end_of _ _ H) as Hend. rewrite <- Hc in *.
+  rewrite (fill_tail_spec today y _ c) by lia.
+  rewrite mget_app, mget_zeros, Hl.
+  set (m := Z.min today (jan1 (y + 1))).
+  replace (c + Z.of_nat (Z.to_nat (m - c))) with (Z.max c m) by lia.
+  destruct (c <=? x) eqn:E1.
+  - apply Z.leb_le in E1.
+    replace (jan1 y <=? x) with true by (symmetry; apply Z.leb_le; lia).
+    replace (x <? c) with false by (symmetry; apply Z.ltb_ge; lia).
+    rewrite andb_false_r. cbn [andb].
+    destruct (x <? Z.max c m) eqn:E2; [ | reflexivity ].
+    unfold valz. destruct (mget x rs) as [v |] eqn:Ev; [ | reflexivity ].
+    pose proof (asc_mget_range _ _ _ _ H Ev). lia.
+  - apply Z.leb_gt in E1. cbn [andb].
+    destruct (jan1 y <=? x) eqn:E3; cbn [andb].
+    + replace (x <? c) with true by (symmetry; apply Z.ltb_lt; lia).
+      replace (x <? Z.max c m) with true by (symmetry; apply Z.ltb_lt; lia). reflexivity.
+    + reflexivity.
+Qed.
+
+(* ------------------------------------------------------------------ pubrates *)
+Lemma obs_in_asc pub : forall n from, asc from (obs_in pub from n).
+Proof.
+  induction n as [| k IH]; intros from; cbn [obs_in]; [exact I | ].
+  destruct (pub from) as [r |].
+  - cbn [asc]. split; [lia | apply IH].
+  - apply (asc_weaken (from + 1)); [lia | apply IH].
+Qed.
+
+Lemma obs_in_mget pub x : forall n from,
+  mget x (obs_in pub from n) =
+    if (from <=? x) && (x <? from + Z.of_nat n) then pub x else None.
+Proof.
+  induction n as [| k IH]; intros from; cbn [obs_in].
+  - cbn [mget]. destruct (from <=? x) eqn:E1; destruct (x <? from + Z.of_nat 0) eqn:E2; cbn; try reflexivity.
+    apply Z.leb_le in E1. apply Z.ltb_lt in E2. lia.
+  - assert (Hstep : (if (from <=? x) && (x <? from + Z.of_nat (S k)) then pub x else None)
+                    = if from =? x then pub x
+                      else if (from + 1 <=? x) && (x <? from + 1 + Z.of_nat k) then pub x else None).
+    { destruct (from =? x) eqn:E.
+      - apply Z.eqb_eq in E. subst x.
+        replace (from <=? from) with true by (symmetry; apply Z.leb_le; lia).
+        replace (from <? from + Z.of_nat (S k)) with true by (symmetry; apply Z.ltb_lt; lia). reflexivity.
+      - apply Z.eqb_neq in E.
+        destruct (from + 1 <=? x) eqn:E1; destruct (x <? from + 1 + Z.of_nat k) eqn:E2; cbn [andb].
+        + apply Z.leb_le in E1. apply Z.ltb_lt in E2.
+          replace (from <=? x) with true by (symmetry; apply Z.leb_le; lia).
+          replace (x <? from + Z.of_nat (S k)) with true by (symmetry; apply Z.ltb_lt; lia). reflexivity.
+        + apply Z.ltb_ge in E2.
+          replace (x <? from + Z.of_nat (S k)) with false by (symmetry; apply Z.ltb_ge; lia).
+          rewrite andb_false_r. reflexivity.
+        + apply Z.leb_gt in E1.
+          replace (from <=? x) with false by (symmetry; apply Z.leb_gt; lia). reflexivity.
+        + apply Z.leb_gt in E1.
+          replace (from <=? x) with false by (symmetry; apply Z.leb_gt; lia). reflexivity. }
+    rewrite Hstep. clear Hstep.
+    destruct (pub from) as [r |] eqn:Ep.
+    + cbn [mget]. rewrite IH.
+      destruct (from =? x) eqn:E.
+      * apply Z.eqb_eq in E. subst x.
+        replace (from + 1 <=? from) with false by (symmetry; apply Z.leb_gt; lia).
+        cbn [andb]. symmetry. exact Ep.
+      * destruct ((from + 1 <=? x) && (x <? from + 1 + Z.of_nat k)); [ | reflexivity ].
+        destruct (pub x); reflexivity.
+    + rewrite IH.
+      destruct (from =? x) eqn:E.
+      * apply Z.eqb_eq in E. subst x.
+        replace (from + 1 <=? from) with false by (symmetry; apply Z.leb_gt; lia).
+        cbn [andb]. symmetry. exact Ep.
+      * reflexivity.
+Qed.
+
+(* the cursor after the observations: unchanged, or one past a published day *)
+Lemma obs_in_end_cases pub : forall n from c,
+  end_of (obs_in pub from n) c = c \/
+  exists x, from <= x < from + Z.of_nat n /\ pub x <> None /\ end_of (obs_in pub from n) c = x + 1.
+Proof.
+  induction n as [| k IH]; intros from c; cbn [obs_in].
+  - left. reflexivity.
+  - destruct (pub from) as [r |] eqn:Ep.
+    + cbn [end_of]. destruct (IH (from + 1) (from + 1)) as [E | [x [Hx [Hp E]]]].
+      * right. exists from. rewrite E. split; [lia | ]. split; [congruence | reflexivity].
+      * right. exists x. split; [lia | ]. split; [exact Hp | exact E].
+    + destruct (IH (from + 1) c) as [E | [x [Hx [Hp E]]]].
+      * left. exact E.
+      * right. exists x. split; [lia | ]. split; [exact Hp | exact E].
+Qed.
+
+Lemma obs_in_end_gt pub x : forall n from c,
+  from <= x < from + Z.of_nat n -> pub x <> None -> x < end_of (obs_in pub from n) c.
+Proof.
+  induction n as [| k IH]; intros from c Hx Hp; [lia | ].
+  cbn [obs_in].
+  destruct (Z.eq_dec from x) as [E | NE].
+  - subst x. destruct (pub from) as [r |] eqn:Ep; [ | congruence ].
+    cbn [end_of]. pose proof (asc_end_of _ _ (obs_in_asc pub k (from + 1))). lia.
+  - destruct (pub from) as [r |].
+    + cbn [end_of]. apply IH; [lia | exact Hp].
+    + apply IH; [lia | exact Hp].
+Qed.
+
+Lemma pubrates_asc pub y : asc (jan1 y) (pubrates pub y).
+Proof. apply obs_in_asc. Qed.
+
+Lemma pubrates_mget pub y x :
+  mget x (pubrates pub y) = if (jan1 y <=? x) && (x <? jan1 (y + 1)) then pub x else None.
+Proof.
+  unfold pubrates. rewrite obs_in_mget.
+  pose proof (year_len_bounds y) as B. unfold year_len in *.
+  replace (jan1 y + Z.of_nat (Z.to_nat (jan1 (y + 1) - jan1 y))) with (jan1 (y + 1)) by lia.
+  reflexivity.
+Qed.
+
+Lemma pubrates_valz pub x :
+  valz (pubrates pub (year_of x)) x = match pub x with Some r => r | None => 0%Qc end.
+Proof.
+  unfold valz. rewrite pubrates_mget.
+  pose proof (year_of_spec x) as S.
+  replace (jan1 (year_of x) <=? x) with true by (symmetry; apply Z.leb_le; lia).
+  replace (x <? jan1 (year_of x + 1)) with true by (symmetry; apply Z.ltb_lt; lia).
+  reflexivity.
+Qed.
+
+Lemma pubrates_end_le pub y : end_of (pubrates pub y) (jan1 y) <= jan1 (y + 1).
+Proof.
+  unfold pubrates. pose proof (year_len_bounds y) as B. unfold year_len in *.
+  destruct (obs_in_end_cases pub (Z.to_nat (jan1 (y + 1) - jan1 y)) (jan1 y) (jan1 y)) as [E | [x [Hx [_ E]]]];
+    rewrite E; lia.
+Qed.
+
+(* a day of year y is covered by the reference map of a calendar iff it is
+   before today or not after the last published day of the year *)
+Lemma covered_iff pub y today x :
+  jan1 y <= x < jan1 (y + 1) ->
+  (x < cover (pubrates pub y) y today <->
+   x < today \/ exists x', x <= x' < jan1 (y + 1) /\ pub x' <> None).
+Proof.
+  intros Hx. unfold cover.
+  pose proof (year_len_bounds y) as B. unfold year_len in B.
+  split.
+  - intros H.
+    destruct (Z_lt_le_dec x today) as [L | G]; [left; exact L | right].
+    assert (He : x < end_of (pubrates pub y) (jan1 y)) by lia.
+    unfold pubrates in He.
+    destruct (obs_in_end_cases pub (Z.to_nat (year_len y)) (jan1 y) (jan1 y)) as [E | [x' [Hx' [Hp E]]]].
+    + rewrite E in He. lia.
+    + rewrite E in He. exists x'. unfold year_len in Hx'. split; [lia | exact Hp].
+  - intros [L | [x' [Hx' Hp]]]; [lia | ].
+    assert (x' < end_of (pubrates pub y) (jan1 y)).
+    { unfold pubrates. apply obs_in_end_gt; [unfold year_len; lia | exact Hp]. }
+    lia.
+Qed.
+
+(* ------------------------------------------------- reference look-up = rule *)
+Section Rule.
+  Variable pub : calendar.
+  Variable today : Z.
+  (* nothing is published for a day after today *)
+  Hypothesis pub_past : forall x, pub x <> None -> x <= today.
+  (* a published rate is not the placeholder *)
+  Hypothesis pub_nonzero : forall x, pub x <> Some 0%Qc.
+
+  Lemma exact_ref_char d :
+    exact_ref (pubrates pub) today d =
+      match pub d with
+      | Some r => inr (Some (d, r))
+      | None => if d <? today then inr None else inl LNotYet
+      end.
+  Proof.
+    unfold exact_ref, refmap. rewrite fill_spec by apply pubrates_asc.
+    pose proof (year_of_spec d) as S.
+    replace (jan1 (year_of d) <=? d) with true by (symmetry; apply Z.leb_le; lia). cbn [andb].
+    rewrite pubrates_valz.
+    destruct (d <? cover (pubrates pub (year_of d)) (year_of d) today) eqn:Ec.
+    - apply Z.ltb_lt in Ec. apply covered_iff in Ec; [ | lia ].
+      destruct (pub d) as [r |] eqn:Ep.
+      + destruct (Qceqb_spec r 0%Qc) as [Z0 | NZ]; [ | reflexivity ].
+        subst r. exfalso. exact (pub_nonzero d Ep).
+      + destruct (Qceqb_spec 0%Qc 0%Qc) as [_ | NZ]; [ | exfalso; apply NZ; reflexivity ].
+        destruct Ec as [L | [x' [Hx' Hp]]].
+        * replace (d <? today) with true by (symmetry; apply Z.ltb_lt; lia). reflexivity.
+        * pose proof (pub_past x' Hp) as Hle.
+          destruct (Z.eq_dec x' d) as [E | NE]; [subst x'; congruence | ].
+          replace (d <? today) with true by (symmetry; apply Z.ltb_lt; lia). reflexivity.
+    - apply Z.ltb_ge in Ec.
+      assert (Hn : ~ (d < today \/ exists x', d <= x' < jan1 (year_of d + 1) /\ pub x' <> None)).
+      { intros C. apply (covered_iff pub (year_of d) today d) in C; lia. }
+      destruct (pub d) as [r |] eqn:Ep.
+      + exfalso. apply Hn. right. exists d. split; [lia | congruence].
+      + assert (today <= d) by (destruct (Z_lt_le_dec d today); [exfalso; apply Hn; left; assumption | assumption]).
+        replace (today <=? d) with true by (symmetry; apply Z.leb_le; lia).
+        replace (d <? today) with false by (symmetry; apply Z.ltb_ge; lia). reflexivity.
+  Qed.
+
+  Lemma lookback_ref_char : forall n d,
+    d <= today ->
+    match lookback_ref (pubrates pub) today n d with
+    | inr (x, r) => d - Z.of_nat n <= x < d /\ pub x = Some r /\ (forall z, x < z < d -> pub z = None)
+    | inl e => e = LNone7 /\ forall z, d - Z.of_nat n <= z < d -> pub z = None
+    end.
+  Proof.
+    induction n as [| k IH]; intros d Hd; cbn [lookback_ref].
+    - split; [reflexivity | ]. intros z Hz. lia.
+    - rewrite exact_ref_char.
+      destruct (pub (d - 1)) as [r |] eqn:Ep.
+      + split; [lia | ]. split; [exact Ep | ]. intros z Hz. lia.
+      + replace (d - 1 <? today) with true by (symmetry; apply Z.ltb_lt; lia).
+        specialize (IH (d - 1) ltac:(lia)).
+        destruct (lookback_ref (pubrates pub) today k (d - 1)) as [e | [x r]].
+        * destruct IH as [He Hz]. split; [exact He | ].
+          intros z Hz'. destruct (Z.eq_dec z (d - 1)) as [E | NE]; [subst z; exact Ep | apply Hz; lia].
+        * destruct IH as [Hx [Hp Hz]]. split; [lia | ]. split; [exact Hp | ].
+          intros z Hz'. destruct (Z.eq_dec z (d - 1)) as [E | NE]; [subst z; exact Ep | apply Hz; lia].
+  Qed.
+
+  (* the look-up is exactly the declarative rule *)
+  Lemma effective_ref_rule d :
+    match effective_ref (pubrates pub) today d with
+    | inr (x, r) => rule_ok pub today d x r
+    | inl LNotYet => rule_not_yet pub today d
+    | inl LNone7 => rule_none7 pub today d
+    | inl _ => False
+    end.
+  Proof.
+    unfold effective_ref. rewrite exact_ref_char.
+    destruct (pub d) as [r |] eqn:Ep.
+    - unfold rule_ok. split; [left; congruence | ]. split; [lia | ]. split; [exact Ep | ].
+      intros z Hz. lia.
+    - destruct (d <? today) eqn:Et.
+      + apply Z.ltb_lt in Et.
+        pose proof (lookback_ref_char 7 d ltac:(lia)) as L.
+        destruct (lookback_ref (pubrates pub) today 7 d) as [e | [x r]].
+        * destruct L as [He Hz]. subst e. unfold rule_none7. split; [exact Et | ].
+          intros z Hz'. destruct (Z.eq_dec z d) as [E | NE]; [subst z; exact Ep | apply Hz; lia].
+        * destruct L as [Hx [Hp Hz]]. unfold rule_ok. split; [right; exact Et | ].
+          split; [lia | ]. split; [exact Hp | ].
+          intros z Hz'. destruct (Z.eq_dec z d) as [E | NE]; [subst z; exact Ep | apply Hz; lia].
+      + apply Z.ltb_ge in Et. unfold rule_not_yet. split; [exact Ep | exact Et].
+  Qed.
+End Rule.
+
+(* the three outcomes of the rule exclude each other and the rate is unique *)
+Lemma rule_ok_unique pub today d x1 r1 x2 r2 :
+  rule_ok pub today d x1 r1 -> rule_ok pub today d x2 r2 -> x1 = x2 /\ r1 = r2.
+Proof.
+  intros (_ & H1 & P1 & N1) (_ & H2 & P2 & N2).
+  destruct (Z.lt_trichotomy x1 x2) as [L | [E | G]].
+  - rewrite (N1 x2 ltac:(lia)) in P2. discriminate.
+  - subst x2. rewrite P1 in P2. inversion P2. auto.
+  - rewrite (N2 x1 ltac:(lia)) in P1. discriminate.
+Qed.
+
+Lemma rule_ok_not_error pub today d x r :
+  rule_ok pub today d x r -> ~ rule_not_yet pub today d /\ ~ rule_none7 pub today d.
+Proof.
+  intros (H0 & H1 & P & N). split.
+  - intros [Pn T]. destruct H0 as [H0 | H0]; [congruence | lia].
+  - intros [T Z]. rewrite (Z x ltac:(lia)) in P. discriminate.
+Qed.
+
+Lemma rule_errors_exclusive pub today d : rule_not_yet pub today d -> rule_none7 pub today d -> False.
+Proof. intros [_ T] [L _]. lia. Qed.
+
+(* ------------------------------------------------------------ observations *)
+Lemma parse_obs_daily d r x :
+  a_div dec 1%Qc r = Ok x ->
+  parse_obs {| o_date := Some d; o_noon := JAbsent; o_daily := JGood r |} = Ok (Some (d, x)).
+Proof. intros H. unfold parse_obs. cbn [o_date o_noon o_daily]. rewrite H. reflexivity. Qed.
+
+Lemma parse_obs_noon d r dl :
+  parse_obs {| o_date := Some d; o_noon := JGood r; o_daily := dl |} = Ok (Some (d, r)).
+Proof. reflexivity. Qed.
+
+Lemma parse_obs_skipped o :
+  o_date o = None \/ o_noon o = JBad \/ (o_noon o = JAbsent /\ o_daily o <> JGood 0%Qc /\
+                                         forall r, o_daily o <> JGood r) ->
+  parse_obs o = Ok None.
+Proof.
+  unfold parse_obs. intros [H | [H | [H1 [_ H2]]]].
+  - rewrite H. reflexivity.
+  - destruct (o_date o); [ | reflexivity ]. rewrite H. reflexivity.
+  - destruct (o_date o); [ | reflexivity ]. rewrite H1.
+    destruct (o_daily o) as [ | | r]; try reflexivity. exfalso. apply (H2 r). reflexivity.
+Qed.
